@@ -296,16 +296,32 @@ SeqValue ==
         [] k \in FindTerms -> IF FirstMatch(prog, out) = 0 THEN <<>>
                               ELSE <<RootOf(prog, out[FirstMatch(prog, out)].k), out[FirstMatch(prog, out)]>>
 
+\* a panicking closure in sequential mode: the std::iter chain reaches the call that panics unless
+\* a find-like terminal returns at an earlier element (same element: the order of the two inside
+\* the element decides, which this model leaves open)
+SeqCrash == {i \in 0..(N - 1) : CrashAt(i)}
+SeqMatch == {i \in 0..(N - 1) : prog.term.k \in FindTerms /\ MatchIn(pe[i + 1].out) # 0}
+SeqMayPanic == \E c \in SeqCrash : \A m \in SeqMatch : c <= m
+SeqMustPanic == \E c \in SeqCrash : \A m \in SeqMatch : c < m
+
 SSeq ==
   /\ sp.pc = "seq"
+  /\ ~SeqMustPanic
   /\ result' = <<"ok", SeqValue>>
+  /\ sp' = [sp EXCEPT !.pc = "done"]
+  /\ UNCHANGED <<prog, pe, rc, counter, gate, wk, bag, mon>>
+
+SSeqPanic ==
+  /\ sp.pc = "seq"
+  /\ SeqMayPanic
+  /\ result' = <<"panic", 0>>
   /\ sp' = [sp EXCEPT !.pc = "done"]
   /\ UNCHANGED <<prog, pe, rc, counter, gate, wk, bag, mon>>
 
 Done == sp.pc = "done"
 
 Next ==
-  \/ SDecideSpawn \/ SDecideStop \/ SChunkContinue \/ SChunkStop \/ SJoin \/ SSeq
+  \/ SDecideSpawn \/ SDecideStop \/ SChunkContinue \/ SChunkStop \/ SJoin \/ SSeq \/ SSeqPanic
   \/ \E w \in 1..MaxW : WStart(w) \/ WStep(w) \/ WPanic(w)
 
 (***************************************************************************)
@@ -355,7 +371,10 @@ P_ExactPulls ==
 P_DisjointPulls ==
   \A v, w \in Spawned : v # w /\ Holding(v) /\ Holding(w) => wk[v].hi <= wk[w].lo \/ wk[w].hi <= wk[v].lo
 \* C14: a panicking closure makes the call panic (it never returns a value), and the run still ends
-P_PanicPropagates == Done => (SomePanicked <=> result[1] = "panic")
+P_PanicPropagates ==
+  Done => IF rc.kernel = "seq"
+          THEN (SeqMustPanic => result[1] = "panic") /\ (result[1] = "panic" => SeqMayPanic)
+          ELSE (SomePanicked <=> result[1] = "panic")
 \* the run always finishes
 P_Terminates == <>Done
 
